@@ -1,4 +1,5 @@
 import HeartwoodModel.Model.Gossip
+import HeartwoodModel.Props.C10
 /-!
 # C29 — Node-signed announcement timestamps strictly increase
 
@@ -13,9 +14,10 @@ that creates a new announcement (`Model/Gossip.lean`: `initialize`/`restart`, `a
 * Part 2: in the service model every announcement a step creates takes its timestamp from
   `Service::timestamp`: strictly above `last_timestamp` before the step, strictly increasing within the
   step, at most `last_timestamp` after it (`step_created_fresh`), hence strictly increasing over any run
-  (`run_created_increasing`); and everything the node writes or stores under its own id is the cached
-  node announcement, an inventory/refs announcement so created, or one that was already cached / stored
-  (`own_writes_known`, `own_rows_known`).
+  (`run_created_increasing`).
+* Part 3: everything the node writes or stores under its own id is the cached node announcement, the
+  cached inventory, an announcement so created, or a row already stored (`step_known`), hence along any run
+  from `init` the node announcement, the first inventory or a created one (`run_own_announcements_known`).
 -/
 set_option linter.unusedSimpArgs false
 set_option linter.unusedVariables false
@@ -427,5 +429,464 @@ example :
        .announceRefs 1, .addInventory 1, .setRepo ⟨1, true, false, [0], [], some (8, 5)⟩,
        .restart])).map (·.ts) = [1003, 1004, 1005, 1006, 1007] := by
   decide
+
+/-! ## Part 3 — everything the node writes or stores under its own id was created as above -/
+
+def cachedNode (s : State) : AnnId := ⟨0, .node, 0, s.nodeTs⟩
+def cachedInv (s : State) : AnnId := ⟨0, .inv, 0, s.invTs⟩
+
+/-- An announcement id of the local node that is accounted for: the cached node announcement, the cached
+inventory, one created in this step, or a row already in the gossip store. -/
+def Known (s : State) (created : List AnnId) (id : AnnId) : Prop :=
+  id = cachedNode s ∨ id = cachedInv s ∨ id ∈ created ∨ ∃ r0 ∈ s.rows, r0.id = id
+
+/-- What a step (or a part of one) owes: own rows and own writes are `Known`, the cached inventory after it
+is the old one or was created by it, the cached node announcement is never replaced. -/
+def KnownStep (s : State) (r : State × Out) : Prop :=
+  (∀ row ∈ r.1.rows, row.id.node = 0 → Known s r.2.created row.id) ∧
+  (∀ w ∈ r.2.writes, w.id.node = 0 → Known s r.2.created w.id) ∧
+  (cachedInv r.1 = cachedInv s ∨ cachedInv r.1 ∈ r.2.created) ∧ r.1.nodeTs = s.nodeTs
+
+theorem Known.mono {s : State} {c c' : List AnnId} {id : AnnId} (h : Known s c id)
+    (hc : ∀ x ∈ c, x ∈ c') : Known s c' id := by
+  rcases h with h | h | h | h
+  · exact Or.inl h
+  · exact Or.inr (Or.inl h)
+  · exact Or.inr (Or.inr (Or.inl (hc _ h)))
+  · exact Or.inr (Or.inr (Or.inr h))
+
+theorem KnownStep.same (s s' : State) (o : Out) (hr : ∀ row ∈ s'.rows, ∃ r0 ∈ s.rows, r0.id = row.id)
+    (hw : ∀ w ∈ o.writes, w.id.node = 0 → Known s o.created w.id)
+    (hi : s'.invTs = s.invTs) (hn : s'.nodeTs = s.nodeTs) : KnownStep s (s', o) :=
+  ⟨fun row h _ => Or.inr (Or.inr (Or.inr (hr row h))), hw, Or.inl (by simp [cachedInv, hi]), hn⟩
+
+theorem KnownStep.comp {s : State} {r1 r2 : State × Out} (h1 : KnownStep s r1) (h2 : KnownStep r1.1 r2) :
+    KnownStep s (r2.1, appendOut r1.2 r2.2) := by
+  obtain ⟨a1, b1, c1, d1⟩ := h1
+  obtain ⟨a2, b2, c2, d2⟩ := h2
+  have lift : ∀ id, id.node = 0 → Known r1.1 r2.2.created id →
+      Known s (r1.2.created ++ r2.2.created) id := by
+    intro id h0 hk
+    rcases hk with h | h | h | ⟨r0, hr0, he⟩
+    · left; rw [h]; simp [cachedNode, d1]
+    · rcases c1 with c | c
+      · right; left; rw [h, c]
+      · right; right; left; rw [h]; exact List.mem_append_left _ c
+    · right; right; left; exact List.mem_append_right _ h
+    · exact (a1 r0 hr0 (he ▸ h0)).mono (fun x hx => List.mem_append_left _ hx) |> (he ▸ ·)
+  refine ⟨fun row hr h0 => lift _ h0 (a2 row hr h0), ?_, ?_, d2.trans d1⟩
+  · intro w hw h0
+    simp only [appendOut, List.mem_append] at hw
+    rcases hw with hw | hw
+    · exact (b1 w hw h0).mono (fun x hx => List.mem_append_left _ hx)
+    · exact lift _ h0 (b2 w hw h0)
+  · simp only [appendOut]
+    rcases c2 with c | c
+    · rcases c1 with c' | c'
+      · exact Or.inl (c.trans c')
+      · exact Or.inr (List.mem_append_left _ (c ▸ c'))
+    · exact Or.inr (List.mem_append_right _ c)
+
+theorem announceInventory_known (s : State) :
+    KnownStep s ((announceInventory s).1, { writes := (announceInventory s).2 }) := by
+  unfold announceInventory
+  split
+  · exact KnownStep.same s s _ (fun row h => ⟨row, h, rfl⟩) (by simp) rfl rfl
+  · refine ⟨?_, ?_, Or.inl rfl, rfl⟩
+    · intro row hr _
+      rcases announced_mem hr with h | h
+      · exact Or.inr (Or.inl h)
+      · exact Or.inr (Or.inr (Or.inr h))
+    · intro w hw _
+      simp only [List.mem_map] at hw
+      obtain ⟨_, _, rfl⟩ := hw
+      exact Or.inr (Or.inl rfl)
+
+theorem refreshInventory_known (s0 s : State) (t : Nat)
+    (hr : ∀ row ∈ s.rows, ∃ r0 ∈ s0.rows, r0.id = row.id) (hn : s.nodeTs = s0.nodeTs) :
+    KnownStep s0 (refreshInventory s t) := by
+  unfold refreshInventory
+  have h := announceInventory_known { s with invTs := t, inv := localInventory s }
+  obtain ⟨a, b, c, d⟩ := h
+  have conv : ∀ id, Known { s with invTs := t, inv := localInventory s } [] id → id.node = 0 →
+      Known s0 [⟨0, .inv, 0, t⟩] id ∨ id = cachedNode s0 := by
+    intro id hk _
+    rcases hk with h | h | h | ⟨r0, hr0, he⟩
+    · right; rw [h]; simp [cachedNode, hn]
+    · left; right; right; left; rw [h]; simp [cachedInv]
+    · simp at h
+    · left; right; right; right
+      obtain ⟨r1, hr1, he1⟩ := hr r0 hr0
+      exact ⟨r1, hr1, he1.trans he⟩
+  refine ⟨?_, ?_, Or.inr ?_, ?_⟩
+  · intro row hrow h0
+    rcases conv _ (a row hrow h0) h0 with h | h
+    · exact h
+    · exact Or.inl h
+  · intro w hw h0
+    rcases conv _ (b w hw h0) h0 with h | h
+    · exact h
+    · exact Or.inl h
+  · simp only [List.mem_singleton]
+    rcases c with c | c
+    · rw [c]; simp [cachedInv]
+    · simp at c
+  · simp only at d
+    rw [d]; exact hn
+
+theorem timestamp_known (s : State) : KnownStep s ((timestamp s).1, {}) :=
+  KnownStep.same s _ _ (fun row h => ⟨row, h, rfl⟩) (by simp) rfl rfl
+
+theorem addInventory_known (s : State) (rid : Nat) : KnownStep s (addInventory s rid) := by
+  unfold addInventory
+  dsimp only
+  split
+  · exact timestamp_known s
+  · exact refreshInventory_known s _ _ (fun row h => ⟨row, h, rfl⟩) rfl
+
+theorem removeInventory_known (s : State) (rid : Nat) : KnownStep s (removeInventory s rid) := by
+  unfold removeInventory
+  dsimp only
+  split
+  · exact refreshInventory_known s _ _ (fun row h => ⟨row, h, rfl⟩) rfl
+  · exact timestamp_known s
+
+theorem announceRefs_known (s : State) (r doc : Repo) : KnownStep s (announceRefs s r doc) := by
+  unfold announceRefs
+  dsimp only
+  split
+  · exact timestamp_known s
+  · refine ⟨?_, ?_, Or.inl rfl, rfl⟩
+    · intro row hr _
+      rcases announced_mem hr with h | h
+      · exact Or.inr (Or.inr (Or.inl (by simp [h])))
+      · exact Or.inr (Or.inr (Or.inr h))
+    · intro w hw _
+      simp only [List.mem_map] at hw
+      obtain ⟨_, _, rfl⟩ := hw
+      exact Or.inr (Or.inr (Or.inl (by simp)))
+
+theorem fetched_known (s : State) (rid p : Nat) (clone upd : Bool) :
+    KnownStep s (fetched s rid p clone upd) := by
+  unfold fetched
+  split
+  · exact KnownStep.same s s _ (fun row h => ⟨row, h, rfl⟩) (by simp) rfl rfl
+  · split
+    · exact KnownStep.same s s _ (fun row h => ⟨row, h, rfl⟩) (by simp) rfl rfl
+    · rename_i r _
+      dsimp only
+      have h1 : KnownStep s
+          (fetchedInventory { s with routing := (addRoute s.routing rid p s.clock).1 } r clone) := by
+        unfold fetchedInventory
+        split
+        · exact addInventory_known { s with routing := (addRoute s.routing rid p s.clock).1 } r.rid
+        · exact KnownStep.same s _ _ (fun row h => ⟨row, h, rfl⟩) (by simp) rfl rfl
+      refine KnownStep.comp h1 ?_
+      unfold fetchedRefs
+      split
+      · exact announceRefs_known _ r r
+      · exact KnownStep.same _ _ _ (fun row h => ⟨row, h, rfl⟩) (by simp) rfl rfl
+
+/-- The loop of `initialize`: own rows are old rows or created by the loop; the caches are untouched. -/
+theorem initRepo_known (db : List (Nat × Nat × Nat)) (acc : InitAcc) (r : Repo) :
+    (∀ row ∈ (initRepo db acc r).s.rows,
+        (∃ r0 ∈ acc.s.rows, r0.id = row.id) ∨ row.id ∈ (initRepo db acc r).created) ∧
+    (∀ x ∈ acc.created, x ∈ (initRepo db acc r).created) ∧
+    (initRepo db acc r).s.invTs = acc.s.invTs ∧ (initRepo db acc r).s.nodeTs = acc.s.nodeTs := by
+  unfold initRepo
+  split
+  · exact ⟨fun row h => Or.inl ⟨row, h, rfl⟩, fun x h => h, rfl, rfl⟩
+  · split
+    · exact ⟨fun row h => Or.inl ⟨row, h, rfl⟩, fun x h => h, rfl, rfl⟩
+    · dsimp only
+      split
+      · exact ⟨fun row h => Or.inl ⟨row, h, rfl⟩, fun x h => h, rfl, rfl⟩
+      · split
+        · exact ⟨fun row h => Or.inl ⟨row, h, rfl⟩, fun x h => h, rfl, rfl⟩
+        · refine ⟨?_, fun x h => List.mem_append_left _ h, rfl, rfl⟩
+          intro row hr
+          rcases announced_mem hr with h | h
+          · exact Or.inr (by simp [h])
+          · exact Or.inl h
+
+theorem initFold_known (db : List (Nat × Nat × Nat)) (repos : List Repo) (acc : InitAcc) :
+    (∀ row ∈ (repos.foldl (initRepo db) acc).s.rows,
+        (∃ r0 ∈ acc.s.rows, r0.id = row.id) ∨ row.id ∈ (repos.foldl (initRepo db) acc).created) ∧
+    (∀ x ∈ acc.created, x ∈ (repos.foldl (initRepo db) acc).created) ∧
+    (repos.foldl (initRepo db) acc).s.invTs = acc.s.invTs ∧
+    (repos.foldl (initRepo db) acc).s.nodeTs = acc.s.nodeTs := by
+  induction repos generalizing acc with
+  | nil => exact ⟨fun row h => Or.inl ⟨row, h, rfl⟩, fun x h => h, rfl, rfl⟩
+  | cons r rs ih =>
+    simp only [List.foldl_cons]
+    obtain ⟨a1, b1, c1, d1⟩ := initRepo_known db acc r
+    obtain ⟨a2, b2, c2, d2⟩ := ih (initRepo db acc r)
+    refine ⟨?_, fun x h => b2 x (b1 x h), c2.trans c1, d2.trans d1⟩
+    intro row hr
+    rcases a2 row hr with ⟨r0, hr0, he⟩ | h
+    · rcases a1 r0 hr0 with ⟨r1, hr1, he1⟩ | h
+      · exact Or.inl ⟨r1, hr1, he1.trans he⟩
+      · exact Or.inr (b2 _ (he ▸ h))
+    · exact Or.inr h
+
+theorem restart_known (s : State) : KnownStep s (restart s) := by
+  obtain ⟨a, _, c, d⟩ := initFold_known s.seedsDb s.repos { s := s }
+  unfold restart
+  dsimp only [timestamp]
+  generalize s.repos.foldl (initRepo s.seedsDb) { s := s } = acc at a c d ⊢
+  refine ⟨?_, by simp, Or.inr (by simp [cachedInv]), d⟩
+  intro row hr _
+  rcases a row hr with h | h
+  · exact Or.inr (Or.inr (Or.inr h))
+  · exact Or.inr (Or.inr (Or.inl (List.mem_append_left _ h)))
+
+theorem KnownStep.congr {s s0 : State} {r : State × Out} (h1 : s.rows = s0.rows)
+    (h2 : s.invTs = s0.invTs) (h3 : s.nodeTs = s0.nodeTs) (h : KnownStep s r) : KnownStep s0 r := by
+  have conv : ∀ c id, Known s c id → Known s0 c id := by
+    intro c id hk
+    rcases hk with h | h | h | h
+    · exact Or.inl (by rw [h]; simp [cachedNode, h3])
+    · exact Or.inr (Or.inl (by rw [h]; simp [cachedInv, h2]))
+    · exact Or.inr (Or.inr (Or.inl h))
+    · exact Or.inr (Or.inr (Or.inr (h1 ▸ h)))
+  obtain ⟨a, b, c, d⟩ := h
+  refine ⟨fun row hr h0 => conv _ _ (a row hr h0), fun w hw h0 => conv _ _ (b w hw h0), ?_, d.trans h3⟩
+  rcases c with c | c
+  · exact Or.inl (by rw [c]; simp [cachedInv, h2])
+  · exact Or.inr c
+
+@[simp] theorem handleKind_invTs (s : State) (a : Ann) (r : Option Nat) :
+    (handleKind s a r).1.invTs = s.invTs := by
+  unfold handleKind handleInv handleRefs handleNode
+  dsimp only
+  repeat' split
+  all_goals rfl
+
+@[simp] theorem handleKind_nodeTs (s : State) (a : Ann) (r : Option Nat) :
+    (handleKind s a r).1.nodeTs = s.nodeTs := by
+  unfold handleKind handleInv handleRefs handleNode
+  dsimp only
+  repeat' split
+  all_goals rfl
+
+theorem handleAnn_caches {s s' : State} {p : Nat} {a : Ann} {k : Option Nat}
+    (h : handleAnn s p a = .ok (s', k)) : s'.invTs = s.invTs ∧ s'.nodeTs = s.nodeTs := by
+  unfold handleAnn at h
+  split at h
+  · simp at h
+  · simp only [Except.ok.injEq, Prod.mk.injEq] at h; rw [← h.1]; exact ⟨rfl, rfl⟩
+  · split at h
+    · simp only [Except.ok.injEq, Prod.mk.injEq] at h; rw [← h.1]; exact ⟨rfl, rfl⟩
+    · simp only [Except.ok.injEq] at h
+      have h1 : s' = (s', k).1 := rfl
+      rw [h1, ← h]; simp
+
+theorem recv_caches (s : State) (p : Nat) (a : Ann) :
+    (recv s p a).1.invTs = s.invTs ∧ (recv s p a).1.nodeTs = s.nodeTs := by
+  by_cases hs : hasSession s p = true
+  case neg => simp [recv, hs]
+  cases h : handleAnn s p a with
+  | error r => simp [recv, hs, h]
+  | ok res =>
+    obtain ⟨s1, k⟩ := res
+    have l1 := handleAnn_caches h
+    cases k with
+    | none => simpa [recv, hs, h] using l1
+    | some k =>
+      rw [recv_eq_of_some hs h]
+      split
+      · exact l1
+      · split <;> exact l1
+
+/-- **C29, closing the loop.** For every state and operation: every gossip-store row of the local node
+after the step and every announcement of the local node written by the step is the cached node
+announcement, the cached inventory announcement, an announcement created in this step
+(`step_created_fresh`), or a row that was already stored; and the cached inventory after the step is the
+old one or one created in this step. -/
+theorem step_known (s : State) (op : Op) : KnownStep s (step s op) := by
+  cases op with
+  | connect p =>
+    refine KnownStep.same s _ _ (fun row h => ⟨row, h, rfl⟩) ?_ rfl rfl
+    intro w hw _
+    simp only [connect, List.mem_cons, List.mem_singleton, List.not_mem_nil, or_false] at hw
+    rcases hw with rfl | rfl
+    · exact Or.inl rfl
+    · exact Or.inr (Or.inl rfl)
+  | disconnect p => exact KnownStep.same s _ _ (fun row h => ⟨row, h, rfl⟩) (by simp [disconnect]) rfl rfl
+  | recv p a =>
+    obtain ⟨hi, hn⟩ := recv_caches s p a
+    refine ⟨?_, ?_, Or.inl (by simp [cachedInv, step, hi]), hn⟩
+    · intro row hr h0
+      right; right; right
+      rcases recv_rows_ids s p a with h | ⟨hA, h⟩
+      · exact mem_ids h hr
+      · obtain ⟨r1, hr1, he⟩ := mem_ids h hr
+        rcases announced_mem hr1 with h1 | h1
+        · exact absurd (by rw [← he, h1] at h0; exact h0) hA.2.2.1
+        · obtain ⟨r0, hr0, h0'⟩ := h1
+          exact ⟨r0, hr0, h0'.trans he⟩
+    · intro w hw h0
+      obtain ⟨w1, _, hA, _⟩ := recv_writes_spec s p a w hw
+      exact absurd (w1 ▸ h0) hA.2.2.1
+  | subscribe p sb =>
+    have hrows : (step s (.subscribe p sb)).1.rows = s.rows := by
+      simp only [step, subscribe]; split <;> rfl
+    have hinv : (step s (.subscribe p sb)).1.invTs = s.invTs := by
+      simp only [step, subscribe]; split <;> rfl
+    have hnode : (step s (.subscribe p sb)).1.nodeTs = s.nodeTs := by
+      simp only [step, subscribe]; split <;> rfl
+    refine ⟨fun row hr _ => Or.inr (Or.inr (Or.inr ⟨row, hrows ▸ hr, rfl⟩)), ?_,
+      Or.inl (by simp [cachedInv, hinv]), hnode⟩
+    intro w hw _
+    obtain ⟨_, _, _, hr⟩ := subscribe_writes_spec s p sb w hw
+    exact Or.inr (Or.inr (Or.inr hr))
+  | elapse dt =>
+    simp only [step]
+    refine KnownStep.congr (s := { s with clock := s.clock + dt }) rfl rfl rfl ?_
+    generalize ({ s with clock := s.clock + dt } : State) = s0
+    have g1 : (gossipTask s0).1.rows.map (·.id) = s0.rows.map (·.id) ∧
+        (gossipTask s0).1.invTs = s0.invTs ∧ (gossipTask s0).1.nodeTs = s0.nodeTs ∧
+        ∀ w ∈ (gossipTask s0).2, w.id.node ≠ 0 := by
+      unfold gossipTask
+      split
+      · refine ⟨relayAnnouncements_ids s0, rfl, rfl, ?_⟩
+        intro w hw
+        dsimp only [relayAnnouncements] at hw
+        simp only [List.mem_flatMap, List.mem_filter, Bool.and_eq_true, bne_iff_ne, ne_eq] at hw
+        obtain ⟨r, ⟨_, _, hnode⟩, hwr⟩ := hw
+        obtain ⟨w1, _⟩ := relayWrites_spec hwr
+        rw [w1]; exact hnode
+      · exact ⟨rfl, rfl, rfl, by simp⟩
+    obtain ⟨g1a, g1b, g1c, g1d⟩ := g1
+    have g2 : KnownStep (gossipTask s0).1
+        ((announceTask (gossipTask s0).1).1, { writes := (announceTask (gossipTask s0).1).2 }) := by
+      unfold announceTask
+      split
+      · obtain ⟨a, b, c, d⟩ := announceInventory_known (gossipTask s0).1
+        exact ⟨a, b, c, d⟩
+      · exact KnownStep.same _ _ _ (fun row h => ⟨row, h, rfl⟩) (by simp) rfl rfl
+    have conv : ∀ id, Known (gossipTask s0).1 [] id → Known s0 [] id := by
+      intro id hk
+      rcases hk with h | h | h | ⟨r0, hr0, he⟩
+      · exact Or.inl (by rw [h]; simp [cachedNode, g1c])
+      · exact Or.inr (Or.inl (by rw [h]; simp [cachedInv, g1b]))
+      · simp at h
+      · obtain ⟨r1, hr1, he1⟩ := mem_ids g1a hr0
+        exact Or.inr (Or.inr (Or.inr ⟨r1, hr1, he1.trans he⟩))
+    obtain ⟨a, b, c, d⟩ := g2
+    unfold wake
+    dsimp only
+    have hprune : ∀ st : State, (∀ row ∈ (pruneTask st).rows, row ∈ st.rows) ∧
+        (pruneTask st).invTs = st.invTs ∧ (pruneTask st).nodeTs = st.nodeTs := by
+      intro st
+      unfold pruneTask
+      split
+      · exact ⟨fun row h => (List.mem_filter.mp h).1, rfl, rfl⟩
+      · exact ⟨fun row h => h, rfl, rfl⟩
+    obtain ⟨p1, p2, p3⟩ := hprune (announceTask (gossipTask s0).1).1
+    refine ⟨fun row hr h0 => conv _ (a row (p1 row hr) h0), ?_, ?_, (p3.trans d).trans g1c⟩
+    · intro w hw h0
+      rcases List.mem_append.mp hw with h | h
+      · exact absurd h0 (g1d w h)
+      · exact conv _ (b w h h0)
+    · left
+      rcases c with c | c
+      · simp only [cachedInv] at c ⊢
+        simp only [AnnId.mk.injEq, true_and] at c ⊢
+        rw [p2, c, g1b]
+      · simp at c
+  | tick now =>
+    simp only [step]
+    split <;> exact KnownStep.same s _ _ (fun row h => ⟨row, h, rfl⟩) (by simp) rfl rfl
+  | setClock t => exact KnownStep.same s _ _ (fun row h => ⟨row, h, rfl⟩) (by simp) rfl rfl
+  | announceRefs rid =>
+    simp only [step, cmdAnnounceRefs]
+    split
+    · exact KnownStep.same s _ _ (fun row h => ⟨row, h, rfl⟩) (by simp) rfl rfl
+    · exact announceRefs_known s _ _
+  | addInventory rid => exact addInventory_known s rid
+  | announceInventory => exact announceInventory_known s
+  | seed rid => exact KnownStep.same s _ _ (fun row h => ⟨row, h, rfl⟩) (by simp [seed]) rfl rfl
+  | unseed rid =>
+    simp only [step, unseed]
+    split
+    · exact KnownStep.congr (s := { s with seeded := s.seeded.filter (· != rid) }) rfl rfl rfl
+        (removeInventory_known _ rid)
+    · exact KnownStep.same s _ _ (fun row h => ⟨row, h, rfl⟩) (by simp) rfl rfl
+  | fetched rid p clone upd => exact fetched_known s rid p clone upd
+  | restart => exact restart_known s
+  | setRepo r => exact KnownStep.same s _ _ (fun row h => ⟨row, h, rfl⟩) (by simp) rfl rfl
+  | knowNode nid ts =>
+    simp only [step]
+    split <;> exact KnownStep.same s _ _ (fun row h => ⟨row, h, rfl⟩) (by simp) rfl rfl
+
+/-- **C29 over runs, complete.** Along any run from `init`, every announcement of the local node that is
+written or stored is the node announcement (`t0 + 1`), the first inventory (`t0 + 2`) or one of the
+announcements created along the run — whose timestamps increase strictly and exceed both
+(`run_created_increasing`). -/
+theorem run_own_announcements_known (t0 : Nat) (b : Bool) (ops : List Op) :
+    ∀ r ∈ run (init t0 b) ops,
+      (∀ w ∈ r.2.writes, w.id.node = 0 →
+        w.id = ⟨0, .node, 0, t0 + 1⟩ ∨ w.id = ⟨0, .inv, 0, t0 + 2⟩ ∨ w.id ∈ createdOf (run (init t0 b) ops)) ∧
+      (∀ row ∈ r.1.rows, row.id.node = 0 →
+        row.id = ⟨0, .node, 0, t0 + 1⟩ ∨ row.id = ⟨0, .inv, 0, t0 + 2⟩ ∨
+          row.id ∈ createdOf (run (init t0 b) ops)) := by
+  -- generalised over the start state and the set `H` of announcements accounted for so far
+  suffices H : ∀ (ops : List Op) (s : State) (G : AnnId → Prop),
+      G (cachedNode s) → G (cachedInv s) → (∀ row ∈ s.rows, row.id.node = 0 → G row.id) →
+      ∀ r ∈ run s ops,
+        (∀ w ∈ r.2.writes, w.id.node = 0 → G w.id ∨ w.id ∈ createdOf (run s ops)) ∧
+        (∀ row ∈ r.1.rows, row.id.node = 0 → G row.id ∨ row.id ∈ createdOf (run s ops)) by
+    intro r hr
+    have := H ops (init t0 b) (fun id => id = ⟨0, .node, 0, t0 + 1⟩ ∨ id = ⟨0, .inv, 0, t0 + 2⟩)
+      (Or.inl rfl) (Or.inr rfl) (by simp [init]) r hr
+    refine ⟨fun w hw h0 => ?_, fun row hrow h0 => ?_⟩
+    · rcases this.1 w hw h0 with (h | h) | h
+      · exact Or.inl h
+      · exact Or.inr (Or.inl h)
+      · exact Or.inr (Or.inr h)
+    · rcases this.2 row hrow h0 with (h | h) | h
+      · exact Or.inl h
+      · exact Or.inr (Or.inl h)
+      · exact Or.inr (Or.inr h)
+  intro ops
+  induction ops with
+  | nil => intro s G _ _ _ r hr; simp [run] at hr
+  | cons op ops ih =>
+    intro s G hn hi hrows r hr
+    obtain ⟨ka, kb, kc, kd⟩ := step_known s op
+    have known_G : ∀ id, Known s (step s op).2.created id → id.node = 0 →
+        G id ∨ id ∈ (step s op).2.created := by
+      intro id hk h0
+      rcases hk with h | h | h | ⟨r0, hr0, he⟩
+      · exact Or.inl (h ▸ hn)
+      · exact Or.inl (h ▸ hi)
+      · exact Or.inr h
+      · exact Or.inl (he ▸ hrows r0 hr0 (he ▸ h0))
+    simp only [run, List.mem_cons] at hr
+    simp only [run, createdOf]
+    rcases hr with rfl | hr
+    · refine ⟨fun w hw h0 => ?_, fun row hrow h0 => ?_⟩
+      · exact (known_G _ (kb w hw h0) h0).imp id (fun h => List.mem_append_left _ h)
+      · exact (known_G _ (ka row hrow h0) h0).imp id (fun h => List.mem_append_left _ h)
+    · let G' : AnnId → Prop := fun id => G id ∨ id ∈ (step s op).2.created
+      have hn' : G' (cachedNode (step s op).1) := by
+        left; simp only [cachedNode, kd]; exact hn
+      have hi' : G' (cachedInv (step s op).1) := by
+        rcases kc with c | c
+        · left; rw [c]; exact hi
+        · right; exact c
+      have hrows' : ∀ row ∈ (step s op).1.rows, row.id.node = 0 → G' row.id :=
+        fun row hrow h0 => known_G _ (ka row hrow h0) h0
+      obtain ⟨h1, h2⟩ := ih (step s op).1 G' hn' hi' hrows' r hr
+      refine ⟨fun w hw h0 => ?_, fun row hrow h0 => ?_⟩
+      · rcases h1 w hw h0 with (h | h) | h
+        · exact Or.inl h
+        · exact Or.inr (List.mem_append_left _ h)
+        · exact Or.inr (List.mem_append_right _ h)
+      · rcases h2 row hrow h0 with (h | h) | h
+        · exact Or.inl h
+        · exact Or.inr (List.mem_append_left _ h)
+        · exact Or.inr (List.mem_append_right _ h)
 
 end HeartwoodModel.Gossip
